@@ -47,6 +47,9 @@ pub struct CountUser {
     pub takes: usize,
     pub ext_calls: usize,
     pub ext_total: usize,
+    /// `==` goals of the program solved successfully on the path to this state (counted by a tick goal the
+    /// harness puts behind every `==` in counter mode — independent of the hooks)
+    pub eq_goals: usize,
 }
 
 impl proto_vulcan::user::User for CountUser {
